@@ -491,6 +491,10 @@ def check_cli(ck, scratch, count, spawn_count):
                    style=rng.random() < 0.5)
         # the reader sorts the table: chr1 / 1 comes first, which is also the first generated row
         rows = gen_table(rng, cfg, list(range(0, 13)), n_random=8, first_kind='auto')
+        if i % 3 == 1:
+            # a table without chrX rows (autosomes + Y only): the sample sex cannot be guessed from it, so the
+            # sex GIVEN on the command line is all there is
+            rows = [r for r in rows if r['chrom'] not in ('chrX', 'X')]
         tables.append((cfg, rows))
         codes.append(run_cli(cfg, rows, scratch, i, spawn=i < spawn_count))
     models = vlib.model_batch_parallel('c01_call', [model_input(cfg, rows) for cfg, rows in tables])
